@@ -137,7 +137,9 @@ pub fn crate_task<P: 'static, R: 'static, F: FnOnce(P) -> R>(
                     .map_err(|e| {
                         Error::other(
                             e.downcast_ref::<&'static str>()
-                                .map_or("task failed without message", |msg| *msg),
+                                .map(|msg| (*msg).to_string())
+                                .or_else(|| e.downcast_ref::<String>().cloned())
+                                .unwrap_or_else(|| "task failed without message".to_string()),
                         )
                     }),
             ));
